@@ -171,3 +171,146 @@ theorem stripLoop_shape (k : Nat) (fs : List File) (hc : Chain fs) (hne : fs ≠
           · exact hpre p hp
 
 end RNacos.LogManager
+
+namespace RNacos.LogManager
+open RNacos.LogStore (Ent Kind)
+
+theorem chain_split (pre : List File) (c : File) (post : List File) (h : Chain (pre ++ c :: post)) :
+    Pre pre c.splitOff ∧ FileInv c ∧ (post = [] → c.closed = false) := by
+  induction pre with
+  | nil =>
+    cases post with
+    | nil => simp only [List.nil_append, Chain] at h; exact ⟨trivial, h.1, fun _ => h.2⟩
+    | cons g r => simp only [List.nil_append, Chain] at h; exact ⟨trivial, h.2.1, by simp⟩
+  | cons y ys ih =>
+    cases ys with
+    | nil =>
+      simp only [List.cons_append, List.nil_append, Chain] at h
+      have := ih (by simpa using h.2.2.2)
+      exact ⟨by simp only [Pre]; exact ⟨h.1, h.2.1, h.2.2.1⟩, this.2.1, this.2.2⟩
+    | cons z zs =>
+      simp only [List.cons_append, Chain] at h
+      have := ih (by simpa using h.2.2.2)
+      exact ⟨by simp only [Pre]; exact ⟨h.1, h.2.1, h.2.2.1, this.1⟩, this.2.1, this.2.2⟩
+
+theorem reopenLast_snoc (ys : List File) (l : File) :
+    reopenLast (ys ++ [l]) = ys ++ [{ l with closed := false, count := 0 }] := by
+  simp [reopenLast]
+
+theorem filter_visible_below (p : File) (hp : FileInv p) (k : Nat) (hle : endIdx p ≤ k) :
+    (visible p).filter (fun e => decide (e.index < k)) = visible p := by
+  rw [List.filter_eq_self]
+  intro e he
+  have := (mem_visible_bounds p hp e he).2
+  simp; omega
+
+theorem filter_visible_above (h : File) (hh : FileInv h) (k : Nat) (hlt : k < h.start) :
+    (visible h).filter (fun e => decide (e.index < k)) = [] := by
+  rw [List.filter_eq_nil_iff]
+  intro e he
+  simp only [visible, List.mem_filter] at he
+  have := (mem_recs_bounds h hh e he.1).1
+  simp; omega
+
+theorem filter_absEnts_below (ps : List File) (k : Nat) (h : ∀ p ∈ ps, FileInv p ∧ endIdx p ≤ k) :
+    (absEnts ps).filter (fun e => decide (e.index < k)) = absEnts ps := by
+  induction ps with
+  | nil => rfl
+  | cons p ps ih =>
+    have hp := h p (by simp)
+    simp only [absEnts, List.flatMap_cons, List.filter_append] at ih ⊢
+    rw [filter_visible_below p hp.1 k hp.2, ih (fun q hq => h q (by simp [hq]))]
+
+theorem filter_absEnts_above (hs : List File) (k : Nat) (h : ∀ g ∈ hs, FileInv g ∧ k < g.start) :
+    (absEnts hs).filter (fun e => decide (e.index < k)) = [] := by
+  induction hs with
+  | nil => rfl
+  | cons g gs ih =>
+    have hg := h g (by simp)
+    simp only [absEnts, List.flatMap_cons, List.filter_append] at ih ⊢
+    rw [filter_visible_above g hg.1 k hg.2, ih (fun q hq => h q (by simp [hq]))]; rfl
+
+/-- **`strip_log_to_index` refines `deleteFrom`** (for a cut that is not below a hidden prefix - Raft never cuts below
+the snapshot pointer): exactly the entries from `k` on disappear, the next expected index is `k` (or stays, when the
+cut is beyond the end), and the catalogue is well formed again with the file that holds the cut as the open log -/
+theorem strip_spec (fs : List File) (p : Option (Nat × Nat)) (hc : Chain fs) (hne : fs ≠ []) (k : Nat)
+    (hk : ∀ f ∈ fs, f.start < f.splitOff → f.splitOff ≤ k)
+    (hk0 : ∀ f0, fs.head? = some f0 → f0.start ≤ k) :
+    Chain (strip ⟨fs, p⟩ k).files ∧
+    absEnts (strip ⟨fs, p⟩ k).files = (absEnts fs).filter (fun e => decide (e.index < k)) ∧
+    absNext (strip ⟨fs, p⟩ k).files = (absNext fs).map (fun n => min n k) := by
+  obtain ⟨pre, c, post, hfs, hloop, hpre, hc0, hpost, habove⟩ := stripLoop_shape k fs hc hne hk hk0
+  subst hfs
+  obtain ⟨hPre, hci, hlast⟩ := chain_split pre c post hc
+  have hinv := chain_mem_inv _ hc
+  -- the cut file's split point is at or below the cut
+  have hsk : c.splitOff ≤ k := by
+    by_cases hh : c.start < c.splitOff
+    · exact hk c (by simp) hh
+    · have := hci.lo; omega
+  -- the new catalogue
+  have hfiles : (strip ⟨pre ++ c :: post, p⟩ k).files =
+      pre ++ [{ stripFile k c with closed := false, count := (if post = [] then c.count else 0) }] ∨
+      (strip ⟨pre ++ c :: post, p⟩ k).files = pre ++ [{ stripFile k c with closed := false, count := 0 }] := by
+    by_cases hp : post = []
+    · subst hp
+      left
+      have hcl := hlast rfl
+      simp only [strip, hloop, List.length_nil, Nat.lt_irrefl, gt_iff_lt, if_false, if_true]
+      congr 2
+      simp [stripFile, hcl]
+    · right
+      have hpos : post.length > 0 := List.length_pos_iff.2 hp
+      simp only [strip, hloop, hpos, if_true]
+      have : (pre ++ stripFile k c :: post).take ((pre ++ stripFile k c :: post).length - post.length) = pre ++ [stripFile k c] := by
+        have hl : (pre ++ stripFile k c :: post).length - post.length = (pre ++ [stripFile k c]).length := by simp; omega
+        rw [hl]
+        have : pre ++ stripFile k c :: post = (pre ++ [stripFile k c]) ++ post := by simp
+        rw [this, List.take_left']; rfl
+      rw [this, reopenLast_snoc]
+  -- both shapes are `pre ++ [c']` with the same records, split point and open flag
+  have key : ∀ c' : File, c'.recs = (stripFile k c).recs → c'.start = c.start → c'.splitOff = c.splitOff → c'.closed = false →
+      Chain (pre ++ [c']) ∧ absEnts (pre ++ [c']) = (absEnts (pre ++ c :: post)).filter (fun e => decide (e.index < k)) ∧
+      absNext (pre ++ [c']) = (absNext (pre ++ c :: post)).map (fun n => min n k) := by
+    intro c' hr hst hso hcl
+    have hr' : c'.recs = c.recs.take (k - c.start) := hr
+    have hfi : FileInv c' := by
+      refine ⟨?_, by rw [hst, hso]; exact hci.lo, ?_⟩
+      · intro j hj
+        simp only [hr', List.length_take] at hj
+        simp only [hr', List.getElem_take, hst]
+        exact hci.ok j (by omega)
+      · have h1 := hci.hi; have h2 := hci.lo
+        simp only [endIdx, hr', hst, hso, List.length_take] at h1 ⊢
+        omega
+    have hvis : visible c' = visible (stripFile k c) := by
+      unfold visible; rw [hso, hr']; rfl
+    have hend : endIdx c' = endIdx (stripFile k c) := by
+      unfold endIdx; rw [hst, hr']; rfl
+    refine ⟨?_, ?_, ?_⟩
+    · rw [chain_snoc_iff]; exact ⟨by rw [hso]; exact hPre, hfi, hcl⟩
+    · have : pre ++ c :: post = pre ++ [c] ++ post := by simp
+      rw [absEnts_snoc, this]
+      simp only [absEnts, List.flatMap_append, List.filter_append, List.flatMap_cons, List.flatMap_nil, List.append_nil]
+      have h1 := filter_absEnts_below pre k (fun q hq => ⟨(pre_mem pre _ hPre q hq).2.1, hpre q hq⟩)
+      have h3 := filter_absEnts_above post k (fun g hg => ⟨hinv g (by simp [hg]), habove g hg⟩)
+      simp only [absEnts] at h1 h3
+      rw [h1, h3, hvis, visible_strip k c hci]; simp
+    · rw [absNext_snoc, hend, endIdx_strip k c hc0]
+      rcases snoc_cases post with hp | ⟨ys, l, hp⟩
+      · subst hp; simp [absNext]
+      · subst hp
+        have : pre ++ c :: (ys ++ [l]) = (pre ++ c :: ys) ++ [l] := by simp
+        rw [this, absNext_snoc]
+        have hl := habove l (by simp)
+        have hce := hpost (by simp)
+        have e1 : min (endIdx c) k = k := by omega
+        have e2 : min (endIdx l) k = k := by
+          have : l.start ≤ endIdx l := by simp [endIdx]
+          omega
+        simp only [Option.map_some, e1, e2]
+  rcases hfiles with h | h
+  · rw [h]; exact key _ rfl rfl rfl rfl
+  · rw [h]; exact key _ rfl rfl rfl rfl
+
+end RNacos.LogManager
